@@ -367,6 +367,82 @@ static void sliding_reconfigure()
     pmc_outcome("wake_form=%d", wake_form);
 }
 
+// sliding semaphore at the boundaries of its 64-bit quantities (non-negative limits, distances up to INT64_MAX -
+// "no throttling"): try_wait(u) is true exactly if u - d <= lower limit (evaluated in 128 bits), and wait(u) returns
+// in that case; a waiter blocked with an enormous u is released by the signal that brings the limit within distance.
+// Input enumeration on one task (+ one blocked waiter): default schedule, no scheduling choices.
+static void sliding_boundaries()
+{
+    static const long M = INT64_MAX;
+    static const long ds[] = {0, 1, 6, 1L << 31, 1L << 62, M - 2, M - 1, M};
+    static const long ls[] = {0, 1, 3, 1L << 62, M - 1, M};
+    static const long us[] = {0, 1, 10, (1L << 62) + 5, M - 1, M};
+    long d = ds[pmc_choose(8, 0)], l0 = ls[pmc_choose(6, 0)], sig = ls[pmc_choose(6, 0)];
+    Slide S;
+    g_slide = &S;
+    S.d = d;
+    pika::sliding_semaphore sem(d, l0);
+    pmc_on_stuck(slide_stuck);
+    rt::start();
+    rt::spawn([&] {
+        rt::watch_self("waiter0");
+        long lower = l0;
+        for (int round = 0; round < 2; ++round)
+        {
+            for (long u : us)
+            {
+                bool within = (__int128) u - (__int128) d <= (__int128) lower;
+                bool r = sem.try_wait(u);
+                PMC_ASSERT(r == within, within ? "sliding-try-missed" : "sliding-try-early", "try_wait(%ld) returned %d with max_difference %ld and lower limit %ld", u, (int) r, d, lower);
+                if (within) sem.wait(u);    // must not block
+            }
+            sem.signal(sig);
+            if (sig > lower) lower = sig;
+            S.maxsig_started = S.maxsig_done = lower;
+        }
+        ++S.finished;
+    });
+    rt::stop();
+    PMC_ASSERT(S.finished == 1, "task-lost", "task did not finish");
+    pmc_outcome("d=%ld l0=%ld sig=%ld", d, l0, sig);
+}
+// blocked waiter with a boundary distance: wait(u) blocks (u - d > l), signal(u - d) releases it
+static void sliding_boundary_blocked()
+{
+    static const long M = INT64_MAX;
+    static const long ds[] = {1, 1L << 62, M - 2, M - 1};
+    long d = ds[pmc_choose(4, 0)], l0 = pmc_choose(2, 0), u = M;
+    Slide S;
+    g_slide = &S;
+    S.d = d;
+    pika::sliding_semaphore sem(d, l0);
+    pmc_watch(&sem, sizeof sem, "sliding_semaphore");
+    pmc_on_stuck(slide_stuck);
+    rt::start();
+    rt::spawn([&] {
+        rt::watch_self("waiter0");
+        ++S.waiting;
+        S.blocked_u = u;
+        sem.wait(u);
+        --S.waiting;
+        PMC_ASSERT((S.maxsig_started > l0 ? S.maxsig_started : l0) >= u - d, "sliding-early", "wait(%ld) returned although only lower limit %ld was signalled (initial %ld, max_difference %ld)", u, S.maxsig_started, l0, d);
+        ++S.finished;
+    });
+    rt::spawn([&] {
+        rt::watch_self("signaller");
+        int guard = 0;
+        while (!S.waiting && ++guard < 300) pika::this_thread::yield();
+        S.maxsig_started = u - d;
+        sem.signal(u - d);
+        S.maxsig_done = u - d;
+        pmc_progress();
+        ++S.finished;
+    });
+    rt::stop();
+    PMC_ASSERT(S.finished == 2, "task-lost", "%d of 2 tasks finished", S.finished);
+    pmc_outcome("d=%ld l0=%ld", d, l0);
+}
+
 int main(int argc, char** argv)
 {
     static const char* focus = "F-addr: the semaphore object (value_, internal spinlock, waiter queue) + each task's thread_data";
@@ -378,6 +454,8 @@ int main(int argc, char** argv)
         {"sem_two_blocked", sem_two_blocked<pika::counting_semaphore<>>, 1, 2, 0.1, 0.1, 1, focus, nullptr, nullptr},
         {"binary_2x1", sem_tasks<pika::binary_semaphore<>, 2, 1, 5, 1>, 1, 2, 0.05, 0.05, 1, focus, nullptr, nullptr},
         {"sliding_2", sliding_tasks<2>, 1, 2, 0.15, 0.2, 1, "F-addr: sliding_semaphore (lower_limit_, max_difference_, spinlock, queue) + thread_data", nullptr, nullptr},
+        {"sliding_boundaries", sliding_boundaries, 0, 0, 0.03, 0.02, 0, "boundary inputs: distances and limits up to INT64_MAX (input enumeration, default schedule)", nullptr, nullptr},
+        {"sliding_boundary_blocked", sliding_boundary_blocked, 1, 2, 0.04, 0.03, 1, "a waiter blocked with upper limit INT64_MAX and a boundary distance, released by one signal", nullptr, nullptr},
         {"sliding_reconfigure", sliding_reconfigure, 1, 2, 0.05, 0.05, 1, "F-addr: sliding_semaphore + thread_data; set_max_difference while a task is blocked, then signal_all / non-advancing signal", nullptr, nullptr},
         {"sem_os_3", sem_os<pika::counting_semaphore<>, 3, 4, 2>, 1, 3, 0.05, 0.07, 1, "F-addr: semaphore; all pthread lock/cond operations of the default agent", nullptr, nullptr},
     };
